@@ -300,6 +300,16 @@ func runC01(w *World, r *Report) {
 	}
 
 	// ---- clear-on-read
+	r.Rule("C01.nested-limit-own", "the run-time step limit of a call (an undesignated Option without component options) is not handed on to nested graph nodes: a graph used as a node keeps the limit it was compiled with, like the same graph compiled alone", 2)
+	undesignatedCarrierCheck(w, r, "C01.nested-limit-own", "WithRuntimeMaxSteps of the outer call replaces the nested graph's own step limit (a nested loop compiled with 3 steps runs 40; a nested graph needing 8 of its 11 steps fails under an outer limit of 5)")
+
+	r.Rule("C01.visits-all", "resolveCompletedTasks / calculateBranch / createTasks: the loops over completed tasks, their successors and branch targets are left only when exhausted or with an error (shared with C03)", 4)
+	ruleLoopsTotal(w, r, "C01.visits-all", []*ssa.Function{
+		w.Fn("compose", "runner.resolveCompletedTasks"), w.Fn("compose", "runner.calculateBranch"), w.Fn("compose", "runner.createTasks"), w.Fn("compose", "runner.calculateNextTasks"),
+	}, map[string]string{
+		"(*compose.runner).calculateBranch: range ws": "membership search (is this end node among the selected ones?): leaving at the first match is the point of the loop",
+	}, "a successor of a completed node is not sent its value and does not run in the next superstep")
+
 	r.Rule("C01.clear-on-read", "every channel implementation clears its stored values on every ready path of get", 2)
 	ruleClearOnRead(w, r, "C01.clear-on-read")
 
@@ -463,16 +473,12 @@ func runC01(w *World, r *Report) {
 	}
 	{
 		aein := w.Fn("compose", "Chain.addEndIfNeeded")
-		fHasEnd := w.Field("compose", "Chain", "hasEnd")
-		var hasEndStore ssa.Instruction
-		for _, fw := range fieldWrites(aein) {
-			if sameField(fw.field, fHasEnd) {
-				hasEndStore = fw.in
-			}
-		}
+		// the once-flag is located by shape (a bool field of Chain set to true here), not by name; its existence and
+		// exactness are C20.chain-end-once's business — here it only marks "wiring finished"
+		_, hasEndStore := chainEndOnceFlag(w)
 		addEdgeM := w.Fn("compose", "Graph.AddEdge")
-		good := hasEndStore != nil
-		if good {
+		good := true
+		{
 			// END edge from every element of preNodeKeys
 			edgeOK := false
 			for _, c := range callsTo(aein, addEdgeM) {
@@ -492,10 +498,13 @@ func runC01(w *World, r *Report) {
 				}
 			}
 			// the loop header (len(preNodeKeys) compare) precedes hasEnd on every path
-			skip, _ := pathQuery{fn: aein, goal: func(in ssa.Instruction) bool { return in == hasEndStore }, avoid: func(in ssa.Instruction) bool {
-				c, ok := in.(*ssa.Call)
-				return ok && isBuiltin(c, "len") && isLoadOfField(c.Call.Args[0], fPre)
-			}}.exists()
+			skip := false
+			if hasEndStore != nil {
+				skip, _ = pathQuery{fn: aein, goal: func(in ssa.Instruction) bool { return in == hasEndStore }, avoid: func(in ssa.Instruction) bool {
+					c, ok := in.(*ssa.Call)
+					return ok && isBuiltin(c, "len") && isLoadOfField(c.Call.Args[0], fPre)
+				}}.exists()
+			}
 			good = edgeOK && !skip
 		}
 		r.Check(good, "C01.chain-lowering", "addEndIfNeeded wires END from every last-stage node", aein.Pos(), "range over preNodeKeys adding (key, END) before hasEnd = true", "END is not connected from every node of the last stage")
@@ -772,4 +781,23 @@ func fanoutCountCheck(w *World, r *Report, rule string) {
 		r.Check(ok && a == -1 && b == -1 && n == 1 && c == 1 && ranged, rule, "second fan-out count = len(successors) - len(writeTo) - len(writeToBranches) + 1", second.Pos(), "copies and selected successors match one to one",
 			fmt.Sprintf("the last reserved copy is split into %d*len(writeTo)%+d*len(branches)%+d*len(successors)%+d copies (recognised=%v, successor list is the ranged one=%v): with two or more branches on one node the surplus copies are handed to nobody and never closed — the copy parent never closes the node's stream and its producer stays blocked once the caller stops reading early", a, b, n, c, ok, ranged))
 	}
+}
+
+// chainEndOnceFlag finds, in Chain.addEndIfNeeded, the bool field of Chain that the function sets to true (the
+// "END edges are in" flag) and the store instruction; nil when there is none.
+func chainEndOnceFlag(w *World) (*types.Var, ssa.Instruction) {
+	aein := w.Fn("compose", "Chain.addEndIfNeeded")
+	chain := w.Named("compose", "Chain")
+	for _, fw := range fieldWrites(aein) {
+		if b, ok := fw.field.Type().Underlying().(*types.Basic); !ok || b.Kind() != types.Bool {
+			continue
+		}
+		if c, ok := fw.val.(*ssa.Const); !ok || c.Value == nil || c.Value.String() != "true" {
+			continue
+		}
+		if fw.owner != nil && fw.owner.Origin().Obj() == chain.Obj() && fw.kind == "store" {
+			return fw.field, fw.in
+		}
+	}
+	return nil, nil
 }
